@@ -244,6 +244,19 @@ def _minmax(it, is_max, args, kwargs):
             return (max if is_max else min)(*args, **kwargs)
         raise OutOfSubset("min/max with key on symbolic values")
     if len(args) == 1:
+        from .coll import SSeq
+        if isinstance(args[0], SSeq) and args[0].ec.sort in (z3.IntSort(), z3.RealSort()):
+            # extremum of a sequence of unknown length: a fresh value bounded by every element and attained by one
+            seq = args[0]
+            cx = it.cx
+            if cx.branch(seq.length <= 0):
+                raise SymRaise(ExcValue(ValueError, ("max() iterable argument is empty" if is_max else "min() iterable argument is empty",)))
+            kind = "int" if seq.ec.sort == z3.IntSort() else "real"
+            m = cx.fresh("ext", seq.ec.sort)
+            j, w = z3.Int(cx.fresh_name("mj")), z3.Int(cx.fresh_name("mw"))
+            cx.assume(z3.ForAll([j], z3.Implies(z3.And(0 <= j, j < seq.length), (seq.at(j) <= m) if is_max else (seq.at(j) >= m))))
+            cx.assume(z3.And(0 <= w, w < seq.length, seq.at(w) == m))
+            return SV(m, kind)
         args = ops.native_iter(it, args[0])
     if not args:
         raise SymRaise(ExcValue(ValueError, ("empty sequence",)))
